@@ -5,6 +5,7 @@ import (
 	"fmt"
 	"regexp"
 	"slices"
+	"sync"
 )
 
 type ImportFunc func(*regexp.Regexp, string) (*BMNumber, error)
@@ -33,6 +34,10 @@ type BMNumber struct {
 
 var AllTypes []BMNumberType
 var AllMatchers map[string]ImportFunc
+
+// registryMu guards AllTypes and AllMatchers: dynamical types are created on demand, also by
+// simulations running concurrently in the same process
+var registryMu sync.RWMutex
 var AllDynamicalTypes []DynamicalType
 
 func init() {
@@ -73,6 +78,8 @@ func ListTypes() {
 }
 
 func GetType(name string) BMNumberType {
+	registryMu.RLock()
+	defer registryMu.RUnlock()
 	for _, t := range AllTypes {
 		if t.GetName() == name {
 			return t
